@@ -127,9 +127,14 @@ def apply_renames(F, known, crates):
     sig_now = {c: [str(l.get("ty")) for l in F.fns[c]["locals"][:F.fns[c]["arg_count"] + 1]] for c in new}
     owner = lambda x: x.rsplit("::", 1)[0]
     short = lambda x: x.rsplit("::", 1)[-1]
-    pairs, used = [], set()
+    pairs, used, reordered = [], set(), set()
     for m in missing:
         same_owner = [c for c in new if c not in used and owner(c) == owner(m) and sig_now[c] == sigs[m]]
+        if not same_owner:
+            # renamed and its parameters reordered: same return type, same parameter types in another order
+            same_owner = [c for c in new if c not in used and owner(c) == owner(m) and sig_now[c][:1] == sigs[m][:1]
+                          and sorted(sig_now[c][1:]) == sorted(sigs[m][1:]) and len(set(sigs[m][1:])) == len(sigs[m][1:])]
+            reordered.update(same_owner if len(same_owner) == 1 else [])
         same_name = [c for c in new if c not in used and short(c) == short(m) and sig_now[c] == sigs[m]]
         others = [x for x in missing if x != m and owner(x) == owner(m) and sigs[x] == sigs[m]]
         pick = None
@@ -142,6 +147,59 @@ def apply_renames(F, known, crates):
             used.add(pick)
     if not pairs:
         return []
+    # a reordered parameter list is put back into the order the rules know: arguments at the call sites, parameter locals in the
+    # body (for an async fn the captured fields of its coroutine body)
+    for old, nw in pairs:
+        if nw not in reordered:
+            continue
+        now_t, old_t = sig_now[nw][1:], sigs[old][1:]
+        perm = [now_t.index(t_) for t_ in old_t]          # old position i  <-  new position perm[i]
+        f = F.fns[nw]
+        n = len(perm)
+
+        def remap_local(l):
+            return 1 + perm.index(l - 1) if 1 <= l <= n else l
+
+        def walk(x):
+            if isinstance(x, dict):
+                if set(x.keys()) >= {"l", "p"} and isinstance(x["l"], int) and isinstance(x["p"], list):
+                    x["l"] = remap_local(x["l"])
+                    for e in x["p"]:
+                        if isinstance(e, dict) and "i" in e and isinstance(e["i"], int):
+                            e["i"] = remap_local(e["i"])
+                    return
+                for v in x.values():
+                    walk(v)
+            elif isinstance(x, list):
+                for v in x:
+                    walk(v)
+        if not f.get("is_async"):
+            walk(f["blocks"])
+            walk(f.get("debug", []))
+            f["locals"][1:n + 1] = [f["locals"][1 + perm[i]] for i in range(n)]
+        else:
+            f["locals"][1:n + 1] = [f["locals"][1 + perm[i]] for i in range(n)]
+            walk(f["blocks"])
+            body = F.fns.get(nw + "::{closure#0}")
+            if body is not None:
+                def walk_f(x):
+                    if isinstance(x, dict):
+                        if set(x.keys()) >= {"l", "p"} and x.get("l") == 1 and isinstance(x["p"], list) and x["p"] and isinstance(x["p"][0], dict) \
+                                and "f" in x["p"][0] and x["p"][0]["f"] < n:
+                            x["p"][0] = dict(x["p"][0], f=perm.index(x["p"][0]["f"]))
+                            return
+                        for v in x.values():
+                            walk_f(v)
+                    elif isinstance(x, list):
+                        for v in x:
+                            walk_f(v)
+                walk_f(body["blocks"])
+                walk_f(body.get("debug", []))
+        for g in F.fns.values():
+            for b in g["blocks"]:
+                t = b["term"]
+                if t["k"] == "call" and (t["f"].get("resolved") == nw or t["f"].get("fn") == nw) and len(t["args"]) == n:
+                    t["args"] = [t["args"][perm[i]] for i in range(n)]
     for old, nw in pairs:
         pat = re.compile(re.escape(nw) + r"(?![A-Za-z0-9_])")
         for fid in list(F.fns):
